@@ -5,7 +5,7 @@
 //!         trace=0|1 free=0|1 maxsteps=N dbpoints=0|1
 use std::{collections::HashMap, fs, io::Write};
 use verif_harness::{
-    driver::{Pct, RandomWalk, Strategy, trace_lines},
+    driver::{Pct, RandomWalk, Straggler, Strategy, trace_lines},
     e2e::*,
     rng::Rng,
 };
@@ -14,6 +14,7 @@ fn strategy(kind: &str, rng: &mut Rng) -> Box<dyn Strategy> {
     match kind {
         "pct" => Box::new(Pct::new(rng.fork(), 3, 400)),
         "sticky" => Box::new(RandomWalk { rng: rng.fork(), stay: 85 }),
+        "straggler" => Box::new(Straggler::new(rng.fork(), 2, 250)),
         _ => Box::new(RandomWalk { rng: rng.fork(), stay: 30 }),
     }
 }
@@ -36,6 +37,8 @@ fn main() {
     let maxsteps: u64 = get("maxsteps", "60000").parse().unwrap();
     let dbpoints = get("dbpoints", "1") == "1";
     let faults = get("faults", "0") == "1";
+    // stop a sweep after this many failing cases (a hang costs real time per case)
+    let maxfail: u64 = get("maxfail", "6").parse().unwrap();
     fs::create_dir_all(outdir).unwrap();
     let mut summary = fs::File::create(format!("{outdir}/summary.txt")).unwrap();
     let mut rng = Rng::new(seed);
@@ -47,7 +50,7 @@ fn main() {
             let block_seed = rng.next();
             let mut crng = Rng(block_seed);
             let n = crng.range(tlo, thi) as usize;
-            let opts = GenOpts { invalid: crng.chance(1, 2), destroy: crng.chance(1, 2), create: crng.chance(1, 2), beneficiary_roles: true, shared_callers: crng.chance(1, 2) };
+            let opts = GenOpts { invalid: crng.chance(1, 2), destroy: crng.chance(1, 2), create: crng.chance(1, 2), beneficiary_roles: true, shared_callers: crng.chance(1, 2), chain: false };
             let (world, block) = gen_block(&mut crng, n, opts);
             let mut orc = oracle(&world.db, &block);
             // half of the blocks run on a database with a persistent fault on a key in-order
@@ -112,6 +115,7 @@ fn main() {
             create: optsv.contains("create") && crng.chance(1, 2),
             beneficiary_roles: optsv.contains("ben"),
             shared_callers: optsv.contains("shared") && crng.chance(1, 2),
+            chain: optsv.contains("chain"),
         };
         let (mut world, block) = gen_block(&mut crng, n, opts);
         world.db.points = dbpoints && !free;
@@ -128,7 +132,7 @@ fn main() {
         let mut srng = Rng(sched_seed);
         let w = *srng.pick(&workers);
         let rc = RunCfg { workers: w, ..Default::default() };
-        let sk = if strat == "mix" { *srng.pick(&["random", "sticky", "pct"]) } else { strat.as_str() };
+        let sk = if strat == "mix" { *srng.pick(&["random", "sticky", "pct"]) } else if strat == "mix2" { *srng.pick(&["random", "sticky", "pct", "straggler", "straggler"]) } else { strat.as_str() };
         let st = if free { None } else { Some(strategy(sk, &mut srng)) };
         let run = run_grevm(world.db.clone_data(), &block, &rc, st, maxsteps);
         let diffs = match &fault {
@@ -150,6 +154,10 @@ fn main() {
             if let Some(r) = &run.report {
                 writeln!(f, "trace:\n{}", trace_lines(&r.trace)).unwrap();
             }
+        }
+        if mismatches + failures >= maxfail {
+            writeln!(summary, "stopped after {} failing cases", mismatches + failures).unwrap();
+            break;
         }
         if want_trace {
             if let Some(r) = &run.report {
